@@ -292,3 +292,5 @@ func mustStruct(b []byte) *structpb.Struct {
 }
 
 var contextBG = context.Background()
+
+func ecdhKey(priv []byte) (*ecdh.PrivateKey, error) { return ecdh.X25519().NewPrivateKey(priv) }
